@@ -379,6 +379,12 @@ func (h *hist) apply(o Op) (accepted bool, errStr string) {
 		}
 		refreshed := h.x.Keeper.GetLatestOracleSetNonce(h.c.Ctx) != setNonceBefore
 		pre.blockSlashed = slashed
+		if len(slashed) > 0 {
+			h.rep.Count("block:end-blocker-slashed-oracles")
+		}
+		if refreshed {
+			h.rep.Count("block:oracle-set-request(refresh)")
+		}
 		// model operations of a block boundary: keeper.slashing (refreshes the total itself when it slashed),
 		// then AddOracleSetRequest's refresh when an oracle set request was created
 		if len(slashed) > 0 || !refreshed {
